@@ -71,6 +71,18 @@ def mk_GEX2048OPENSSH(label):
                        gex=peer.GexPolicy([2048], peer.OPENSSH), host_keys=_hk(['ssh-ed25519']), banner=OPENSSH)
 
 
+def mk_GEX2048OPENSSHCBC(label):
+    # a twin of GEX2048OPENSSH (same branch of every decision about group exchange) that differs in its ciphers and MACs
+    return peer.Server(label=label, kex=['curve25519-sha256', 'diffie-hellman-group-exchange-sha256'], enc=['aes256-ctr', '3des-cbc', 'aes128-cbc'],
+                       mac=['hmac-sha2-256', 'hmac-sha1'], gex=peer.GexPolicy([2048], peer.OPENSSH), host_keys=_hk(['ssh-ed25519']), banner=OPENSSH)
+
+
+def mk_PQONLY(label):
+    # hardened to post-quantum hybrids the connection-rate check knows nothing about: it returns early for this target
+    return peer.Server(label=label, kex=['mlkem768x25519-sha256', 'sntrup761x25519-sha512'], key=['ssh-ed25519'], enc=['aes256-gcm@openssh.com'],
+                       mac=['hmac-sha2-256-etm@openssh.com'], host_keys=_hk(['ssh-ed25519']), banner=OPENSSH)
+
+
 def mk_SSH1(label):
     return peer.Server(label=label, banner=b'SSH-1.5-OpenSSH_3.4', ssh1={'cmask': 0x4c, 'amask': 0x2c}, versions_differ=True)
 
@@ -107,7 +119,7 @@ HEALTHY = {
     'TERR': mk_TERR, 'MARK': mk_MARK, 'RSA1024': mk_RSA1024, 'RSA2048': mk_RSA2048, 'RSA4096': mk_RSA4096,
     'CERTSMALLCA': mk_CERTSMALLCA, 'CERTBIGCA': mk_CERTBIGCA, 'GEX1024': mk_GEX1024, 'GEX4096': mk_GEX4096,
     'GEXFALLBACK': mk_GEXFALLBACK, 'GEX2048OPENSSH': mk_GEX2048OPENSSH, 'SSH1': mk_SSH1, 'CLEAN': mk_CLEAN, 'UNKNOWN': mk_UNKNOWN,
-    'OLDSSH': mk_OLDSSH, 'NEWSSH': mk_NEWSSH, 'GEXREFUSED': mk_GEXREFUSED,
+    'OLDSSH': mk_OLDSSH, 'NEWSSH': mk_NEWSSH, 'GEXREFUSED': mk_GEXREFUSED, 'GEX2048OPENSSHCBC': mk_GEX2048OPENSSHCBC,
 }
 
 
@@ -194,6 +206,9 @@ def mk_PROBEDEBUGBAD(label):
     return _faulty(label, 2, ('debug_then', ('len', 0, 'plus1')), base=mk_RSA2048, conn=1)
 
 
+# healthy archetypes used by single families only (kept out of the all-pairs products)
+HEALTHY_EXTRA = {'PQONLY': mk_PQONLY}
+
 FAILING = {
     'UNRESOLVABLE': None, 'REFUSED': mk_REFUSED, 'CONNTIMEOUT': mk_CONNTIMEOUT, 'SILENT': mk_SILENT, 'CLOSEEARLY': mk_CLOSEEARLY,
     'CLOSEAFTERBANNER': mk_CLOSEAFTERBANNER, 'BADBLOCK': mk_BADBLOCK, 'TRUNCKEXINIT': mk_TRUNCKEXINIT, 'WRONGFIRST': mk_WRONGFIRST,
@@ -204,6 +219,7 @@ FAILING = {
 
 ALL = dict(HEALTHY)
 ALL.update(FAILING)
+ALL.update(HEALTHY_EXTRA)
 
 
 def host_label(i):
@@ -237,11 +253,11 @@ def targets_file(lines):
     return p
 
 
-def run_multi(archs, threads, fmt='text', prefix=(), gate_kinds=('connect',), policy=None, extra=(), world_kw=None):
+def run_multi(archs, threads, fmt='text', prefix=(), gate_kinds=('connect',), policy=None, extra=(), world_kw=None, rate=False):
     """-> (result, scheduler).  Output for position i is labelled host<i>.example."""
     w = build_world(archs, world_kw=world_kw)
     tf = targets_file([host_label(i) for i in range(len(archs))])
-    argv = ['-n', '--skip-rate-test'] + (['-j'] if fmt == 'json' else []) + list(extra)
+    argv = ['-n'] + ([] if rate else ['--skip-rate-test']) + (['-j'] if fmt == 'json' else []) + list(extra)
     if policy:
         argv += ['-P', policy]
     argv += ['-T', tf, '--threads', str(threads)]
